@@ -63,6 +63,7 @@ import (
 	"bytes"
 	"flag"
 	"fmt"
+	"os"
 	"runtime"
 	"sync"
 	"sync/atomic"
@@ -199,7 +200,7 @@ func (c *Case) sanitize() {
 	clamp(&c.QueueCap, 0, 1024)
 	clamp(&c.Submitters, 1, 64)
 	clamp(&c.PreUs, 0, 100000)
-	clamp(&c.HoldUs, 0, 100000)
+	clamp(&c.HoldUs, 0, 2000000)
 	clamp(&c.SettleUs, 0, 100000)
 	for i := range c.Jobs {
 		clamp(&c.Jobs[i].Sub, 0, c.Submitters-1)
@@ -856,6 +857,18 @@ func TestC19(t *testing.T) {
 	q, th := 3000, 40000
 	if raceEnabled {
 		q, th = 800, 6000
+	}
+	if stat.ReplayPath() == "" && os.Getenv("VERIF_ONLY") == "" && !raceEnabled {
+		// Release while every worker is busy for more than a second and the dispatcher holds a
+		// further job: it must keep waiting (no give-up timer may end it early)
+		pinned := map[string]Case{
+			"release-waits-longer-than-a-second": {Workers: 2, QueueCap: 4, Submitters: 1, Release: "running", HoldUs: 1300000,
+				Phase2: []P2{{Gated: true}, {Gated: true}, {Dur: 10}, {Dur: 10}}},
+		}
+		stat.Pinned(t, st, "pool", pinned, func(c Case) *stat.Failure {
+			st.CaseJSON(c, true, "pinned-long-release")
+			return run(c)
+		})
 	}
 	stat.Check(t, st, "pool", stat.N(q, th), draw, run)
 	// one key per process (numeric extras with equal keys would be summed by the driver)
